@@ -220,6 +220,7 @@ def _n_rank_only(tree) -> int:
 
 
 MAX_EXPOSED = 800
+MAX_EXPOSED_BYTES = 1_500_000_000
 
 
 def _type_vi(name: str, elem: int):
@@ -291,6 +292,19 @@ def instrument(proto):
     if len(recs) > MAX_EXPOSED:         # very large models: an evenly spaced subset of the values
         step = len(recs) / MAX_EXPOSED
         recs = [recs[int(i * step)] for i in range(MAX_EXPOSED)]
+    # bound the memory ORT needs to keep every exposed value alive: estimated bytes (unknown / symbolic
+    # dims counted as 64, loop-stacked values × 8 per level) up to MAX_EXPOSED_BYTES
+    kept, total = [], 0
+    for r in recs:
+        n = 8
+        for d in (r["dims"] or [64, 64]):
+            n *= d if isinstance(d, int) and d > 0 else 64
+        n *= 8 ** r["lead"]
+        if total + n > MAX_EXPOSED_BYTES and kept:
+            continue
+        total += n
+        kept.append(r)
+    recs = kept
     have = {vi.name for vi in m.graph.output}
     for r in recs:
         if r["name"] not in have:
@@ -466,26 +480,30 @@ def run(chk: Check) -> None:
     ldis: list = []
     rejected: list = []
     n_done = n_snap = changed = vocab = cert = observed = 0
-    for chunk in progs.chunks(plan, 250):
-        if time.time() - t0 > budget:
-            break
-        done = []
+    def grab_snapshot(ex):
+        ex.extra["snap"] = SNAPS.pop() if SNAPS else None
         SNAPS.clear()
-        opt._refresh_elementwise_output_shape = monitored_refresh
-        try:
-            with PostprocessHook():
-                for d, cfg in chunk:
-                    if time.time() - t0 > budget:
-                        break
-                    n0 = len(SNAPS)
-                    ex = progs.export(d, cfg)
-                    if not ex.ok:
-                        k = ex.error.split(":")[0]
-                        raised[k] = raised.get(k, 0) + 1
-                        continue
-                    done.append((ex, SNAPS[n0] if len(SNAPS) > n0 else None))
-        finally:
-            opt._refresh_elementwise_output_shape = orig_refresh
+
+    import atexit
+    opt._refresh_elementwise_output_shape = monitored_refresh
+    hook = PostprocessHook()
+    hook.__enter__()
+
+    def _restore():
+        hook.__exit__(None, None, None)
+        opt._refresh_elementwise_output_shape = orig_refresh
+
+    atexit.register(_restore)       # also restored explicitly right after the loop
+    gen = progs.export_in_chunks(plan, max_models=250, max_bytes=400_000_000, deadline=t0 + budget,
+                                 after=grab_snapshot)
+    for chunk in gen:
+        done = []
+        for ex in chunk:
+            if not ex.ok:
+                k = ex.error.split(":")[0]
+                raised[k] = raised.get(k, 0) + 1
+                continue
+            done.append((ex, ex.extra.get("snap")))
         n_done += len(done)
         idx = [k for k, (_, snap) in enumerate(done) if snap is not None]
         lines = [json.dumps({"op": "loosen", "before": done[k][1]["before"], "after": done[k][1]["after"],
@@ -543,9 +561,10 @@ def run(chk: Check) -> None:
                                  f"declared {c.get('elem')}:{c.get('dims')} but runtime "
                                  f"{c.get('runtime', c.get('values'))} [{c['what']}] for {c.get('binding')}",
                             {"program": ex.desc, "config": ex.cfg, "contradiction": c})
-        SNAPS.clear()
-        progs.clear_cache()
+        for ex, _ in done:
+            ex.extra.clear()
         chk.log(f"{n_done} models processed at {round(time.time() - chk.t0, 1)} s")
+    _restore()
     chk.coverage["programs"] = n_done
     chk.info("exports", {"planned": len(plan), "exported": n_done, "export_raised": raised})
     chk.info("refresh_hypothesis_monitor", refresh_stats)
